@@ -195,7 +195,6 @@ func bufAppend(ex *Exec, st *State, recv VPtr, src Value, bt types.Type) *Term {
 	return slen
 }
 
-
 func bufType(fn *ssa.Function) types.Type {
 	return fn.Signature.Recv().Type().Underlying().(*types.Pointer).Elem()
 }
